@@ -162,7 +162,8 @@ def environments():
     envs = [('aslr', [], {}),
             ('noaslr', ['setarch', arch, '-R'], {}),
             ('bigenv', [], {'C20_ENV_PADDING': 'x' * 70000, 'C20_MORE': 'y' * 3000}),
-            ('mmap4k', [], {'GLIBC_TUNABLES': 'glibc.malloc.mmap_threshold=4096'})]
+            ('mmap4k', [], {'GLIBC_TUNABLES': 'glibc.malloc.mmap_threshold=4096'}),
+            ('tcache0', [], {'GLIBC_TUNABLES': 'glibc.malloc.tcache_count=0'})]
     # setarch -R needs the personality syscall
     rc, _ = sh(['setarch', arch, '-R', 'true'])
     note = None
@@ -208,7 +209,7 @@ VHDL_EVSIG = re.compile(rb'^signal event_(.*)_sig : std_logic;', re.M)
 
 
 def words_sorted(t):
-    return tuple(sorted(tuple(sorted(l.split())) for l in t.split(b'\n')))
+    return tuple(sorted(tuple(sorted(re.findall(rb'\w+', l))) for l in t.split(b'\n')))
 
 
 def mask(b, rules):
@@ -265,6 +266,9 @@ def run(c):
     c.cov['trusted_base'] += ['tools/translate/tr_envdeps.py (regular-expression inventory, no finite probe)',
                               'MD5 as implemented by OCaml Digest / Python hashlib agrees with uscxml::md5 (checked on every observed pointer)',
                               'rendering of the text around the identifier skeleton, createMacroName, table computation and the interpreter are abstract (universally quantified) in the theorems']
+    c.notes['output_destination'] = ('the compared bytes are those of the -o file; with stdout as destination the library\'s log lines '
+                                     '("[Info] HTTP server listening on tcp/30444" or "[Error] WebSocket server cannot bind to tcp/30445", depending on '
+                                     'which other uscxml processes run on the machine) are mixed into the generated text (observed, not judged)')
     c.assumptions += [
         'PARTIAL BY NATURE: the model is a pure function of (document, url, env); the theorems are noninterference in the inputs env lists (address-space layout, std::hash, random generator, cache directory) and say nothing about a source of nondeterminism that is not listed; such a source is searched for by the multi-process byte comparison only',
         'every element needing an id carries one (has_ids); documents without ids are run to confirm that the proviso is needed, not judged',
